@@ -564,3 +564,134 @@ impl Scenario for C18 {
         })
     }
 }
+
+// ------------------------------------------------------------------------------------------------
+// c18mt: the same core operations executed by several REAL threads of one process at the same time.
+// Each thread arms its own (thread-local) window around a burst of calls on its own objects; process-wide
+// scratch state that is only allocated under contention shows up here.  The interleaving is the OS scheduler's
+// (not replayable), but the verdict cannot depend on it on a tree that holds the property: the count must be 0
+// under every schedule.
+// ------------------------------------------------------------------------------------------------
+#[derive(Clone, Debug, Hash, PartialEq, Eq)]
+pub struct MtHist {
+    pub variant: u8,
+    pub data: DataDesc,
+    pub raw: Vec<u8>,
+    pub threads: u8,
+    /// 0 finalize, 1 compare, 2 parse (accepting), 3 update, 4 store_into_str_bytes, 5 mixed
+    pub kind: u8,
+    pub iters: u16,
+    pub o: u8,
+}
+pub struct C18Mt;
+
+fn burst<K: Kind>(h: &MtHist) -> (u64, u64) {
+    let data = h.data.bytes();
+    let threads = h.threads.clamp(2, 4) as usize;
+    let barrier = std::sync::Barrier::new(threads);
+    let counts: Vec<(u64, u64)> = std::thread::scope(|sc| {
+        let hs: Vec<_> = (0..threads)
+            .map(|t| {
+                let (data, barrier) = (&data, &barrier);
+                sc.spawn(move || {
+                    // per-thread objects, allocated before arming
+                    let mut g = K::new_gen();
+                    g.update(data);
+                    let h1 = raw_hash::<K>(&h.raw);
+                    let mut raw2 = h.raw.clone();
+                    raw2[(t * 7) % 60 + 5] ^= 0x5a;
+                    let h2 = raw_hash::<K>(&raw2);
+                    let text: Vec<u8> = h1.to_string().into_bytes();
+                    let opt = options(h.o);
+                    let mut out = [0u8; 160];
+                    let piece = &data[..data.len().min(64)];
+                    barrier.wait();
+                    let (acc, n) = armed(|| {
+                        let mut acc = 0u64;
+                        for i in 0..h.iters as u64 {
+                            let k = if h.kind == 5 { (i % 5) as u8 } else { h.kind };
+                            match k {
+                                0 => acc += g.finalize_with_options(&opt).is_ok() as u64,
+                                1 => acc += h1.compare_with_config(&h2, ComparisonConfiguration::Default) as u64,
+                                2 => acc += <K::H as FuzzyHashType>::from_str_bytes(&text, None).is_ok() as u64,
+                                3 => g.update(piece),
+                                _ => acc += h1.store_into_str_bytes(&mut out, HexStringPrefix::WithVersion).is_ok() as u64,
+                            }
+                        }
+                        acc
+                    });
+                    std::hint::black_box(acc);
+                    (n, h.iters as u64)
+                })
+            })
+            .collect();
+        hs.into_iter().map(|x| x.join().expect("c18mt thread")).collect()
+    });
+    (counts.iter().map(|c| c.0).sum(), counts.iter().map(|c| c.1).sum())
+}
+
+impl Scenario for C18Mt {
+    type Hist = MtHist;
+    fn name(&self) -> &'static str {
+        "c18mt"
+    }
+    fn property(&self) -> &'static str {
+        "C18"
+    }
+    fn rule(&self) -> &'static str {
+        "history = (variant, data, hash value, number of real threads 2..4, operation kind, calls per thread, options); every thread arms its own window around its burst;          distinct = distinct history digests; non-trivial = every run (>= 2 threads x >= 50 calls overlapping in time)"
+    }
+    fn generate(&self, r: &mut Rng, _index: u64) -> MtHist {
+        let len = draw_small_len(r).min(2000).max(60);
+        MtHist { variant: r.below(5) as u8, data: draw_data(r, len), raw: crate::workload::draw_raw(r), threads: r.range(2, 4) as u8, kind: r.below(6) as u8,
+                 iters: r.range(50, 600) as u16, o: if r.chance(1, 2) { 30 } else { r.below(32) as u8 } }
+    }
+    fn execute(&self, h: &MtHist, st: &mut Stats) -> Outcome {
+        st.hit("runs");
+        let res = guarded(|| with_kind!(h.variant, K => burst::<K>(h)));
+        match res {
+            Ok((allocs, calls)) => {
+                st.add("armed_calls", calls);
+                st.add("fault.concurrent_threads", h.threads.clamp(2, 4) as u64);
+                let violation = if allocs != 0 {
+                    let name = ["finalize_with_options", "compare_with_config", "from_str_bytes", "update", "store_into_str_bytes", "mixed core operations"][h.kind as usize % 6];
+                    Some(Violation { class: format!("allocation-under-concurrency:{name}"), detail: format!("{} threads x {} calls of {name} on {}: {allocs} heap allocation(s) inside the armed windows", h.threads, h.iters, K_NAMES[h.variant as usize % 5]) })
+                } else {
+                    None
+                };
+                Outcome { violation, digest: calls, nontrivial: true, states: vec![(h.variant as u64) << 8 | (h.kind as u64) << 4 | h.threads as u64] }
+            }
+            Err(p) => Outcome { violation: Some(Violation { class: format!("panic:{}", panic_class(&p)), detail: format!("panic: {p}") }), digest: 0, nontrivial: true, states: vec![] },
+        }
+    }
+    fn shrink(&self, h: &MtHist) -> Vec<MtHist> {
+        let mut out = Vec::new();
+        if h.variant != 1 {
+            let mut c = h.clone();
+            c.variant = 1;
+            out.push(c);
+        }
+        if h.threads > 2 {
+            let mut c = h.clone();
+            c.threads = 2;
+            out.push(c);
+        }
+        out
+    }
+    fn to_json(&self, h: &MtHist) -> Value {
+        json!({"variant": VARIANT_NAMES[h.variant as usize % 5], "variant_id": h.variant, "data": h.data.to_json(), "raw": hex(&h.raw), "threads": h.threads, "kind": h.kind, "iters": h.iters, "o": h.o,
+               "kind_legend": "0 finalize, 1 compare, 2 parse, 3 update, 4 store_into_str_bytes, 5 mixed"})
+    }
+    fn from_json(&self, v: &Value) -> Result<MtHist, String> {
+        Ok(MtHist {
+            variant: v["variant_id"].as_u64().ok_or("variant_id")? as u8,
+            data: DataDesc::from_json(&v["data"])?,
+            raw: unhex(v["raw"].as_str().ok_or("raw")?)?,
+            threads: v["threads"].as_u64().ok_or("threads")? as u8,
+            kind: v["kind"].as_u64().ok_or("kind")? as u8,
+            iters: v["iters"].as_u64().ok_or("iters")? as u16,
+            o: v["o"].as_u64().ok_or("o")? as u8,
+        })
+    }
+}
+const K_NAMES: [&str; 5] = VARIANT_NAMES;
